@@ -114,6 +114,27 @@ def _apfl(check: Check):
             copy_ok = True
       check.ob('R-PARTICIPANT.copy', fi, f'{txt(base)} = dict(server_state.client_states)', copy_ok,
                'non-participants keep their stored state: the new table starts as a copy of the previous one', node=st_)
+    # nothing else in the module writes into a state table it was given (evaluation included): entries for clients that never
+    # trained must not appear as a side effect
+    from fjsa.rules.pure import PurityAnalysis
+    pa_ = PurityAnalysis(repo)
+    n_mut = 0
+    for g in m.functions():
+      for mu in pa_.mutations(g):
+        if mu.root in g.params or mu.root.startswith('<'):
+          holder = g
+          sc_ = g.scope.parent
+          captured = False
+          while sc_ is not None and sc_.kind == 'function':
+            captured = captured or mu.root in m.funcs_by_node[sc_.node].params
+            sc_ = sc_.parent
+          if 'client_states' in mu.construct or mu.root in g.params:
+            n_mut += 1
+            check.ob('R-PARTICIPANT.table', g, mu.construct[:80], False,
+                     f'{mu.how} ({mu.root}): the client-state table of the state passed in is changed in place - clients that did not '
+                     'take part in a training round get or lose entries', node=mu.node)
+    check.ob('R-PARTICIPANT.table', fi, 'no in-place write to a state table passed in (all functions of the module)', n_mut == 0,
+             'state tables change only through the copy made in the round', nontrivial=False)
     # default state for unseen clients: coefficients = client_coefficient everywhere
     okd = False
     for _, c in aff.calls():
